@@ -10,6 +10,8 @@ FM = "source/log_formatter.c"
 BG = "aws_log_background_channel"
 
 DECIDED = [
+    "GATE/set-level: every logger vtable whose get_log_level reads a stored level provides a set_log_level that stores it (owned and unowned pipeline, no-alloc)",
+    "LINE/private-state: every mutable static-storage variable the line formatter touches is thread-local",
     "GATE: every library log call and aws_logger_get_conditional admit a line exactly under active_level >= level, and pass the gated level on",
     "OWNERSHIP: the formatted line is destroyed exactly once on every path (pipeline: sent or destroyed; foreground: written then destroyed; background: each line of the swapped batch written, then destroyed, batch cleared before the next swap)",
     "LOCK/NOTIFY: pending lines and the finished flag are touched only under the channel mutex (constructor / post-join clean-up exempt); every push and the finished store are followed by a notification; the wait predicate reads both",
@@ -21,6 +23,29 @@ DECIDED = [
 NOT_DECIDED = ["per-thread FIFO order and no-loss under all schedules (only the schedule-independent protocol shape)", "content of the formatted prefix (libc formatting)"]
 ASSUMPTIONS = ["registered log subject names are shorter than 2^20 bytes and one formatted message is shorter than 2^30 bytes (the caller computes the line length in int)", "aws_mutex / condition variable semantics as documented", "aws_array_list push_back/swap_contents/clear have their documented sequence effect (C09)",
                "snprintf(buf,n,..) writes at most n bytes including the terminator and returns the untruncated length"]
+
+
+def vtables_complete(R, P):
+    """GATE/set-level: every logger vtable whose get_log_level reads a stored level also provides set_log_level, and that
+    function writes the same level field: a level change through aws_logger_set_log_level applies to all later calls (a
+    missing slot makes the change fail with UNIMPLEMENTED and the level stays as created)."""
+    n = 0
+    for name, g in sorted(P.globals.items()):
+        st = (g.get("init") or {}).get("struct") if isinstance(g.get("init"), dict) else None
+        if not st or "get_log_level" not in st or "log" not in st:
+            continue
+        gf = P.fn((st.get("get_log_level") or {}).get("fn") or "")
+        if gf is None:
+            continue
+        reads_level = any(x["k"] == "member" and x["f"] == "level" for b in gf.blocks.values() for el in b.elems for x in gf.walk(el, follow_refs=True))
+        if not reads_level:
+            continue  # a logger without a stored level (the null logger)
+        n += 1
+        sf = P.fn((st.get("set_log_level") or {}).get("fn") or "") if st.get("set_log_level") else None
+        writes_level = sf is not None and any(x["k"] == "member" and x["f"] == "level" for b in sf.blocks.values() for el in b.elems for x in sf.walk(el, follow_refs=True))
+        R.check(writes_level, "GATE", "vtable:%s:set_log_level" % name, "source/logging.c:%s" % g.get("line"), "set_log_level is provided and stores the level that get_log_level reads",
+                "logger vtable %s has a get_log_level that reads a stored level but no set_log_level storing it: aws_logger_set_log_level on such a logger fails with UNIMPLEMENTED and the level stays what it was at creation" % name)
+    R.require(n >= 3, "only %d logger vtables with a stored level found (confirmed: owned pipeline, unowned pipeline, no-alloc)" % n)
 
 
 def analyse(ctx, replace=None, only=None):
@@ -41,6 +66,7 @@ def analyse(ctx, replace=None, only=None):
         R.fn(f)
 
     gate(R, P, lg)
+    vtables_complete(R, P)
     ownership(R, ch, lg)
     background(R, ch)
     from rules import C14_line
@@ -373,6 +399,8 @@ MUTANTS = [
     {"name": "foreground-write-unlocked", "file": CH, "expect": "FOREGROUND",
      "old": "    aws_mutex_lock(&impl->sync);\n    (channel->writer->vtable->write)(channel->writer, log_line);\n    aws_mutex_unlock(&impl->sync);",
      "new": "    aws_mutex_lock(&impl->sync);\n    aws_mutex_unlock(&impl->sync);\n    (channel->writer->vtable->write)(channel->writer, log_line);"},
+    {"name": "thread-id-cache-not-thread-local", "file": "source/log_formatter.c", "expect": "LINE", "old": "AWS_THREAD_LOCAL struct {\n    bool is_valid;", "new": "static struct {\n    bool is_valid;"},
+    {"name": "owned-vtable-without-set-level", "file": LG, "expect": "GATE", "old": "    .clean_up = s_aws_logger_pipeline_owned_clean_up,\n    .set_log_level = s_aws_logger_pipeline_set_log_level,", "new": "    .clean_up = s_aws_logger_pipeline_owned_clean_up,"},
     {"name": "line-sized-without-subject", "file": "source/log_formatter.c", "expect": "LINE", "old": "    int total_length = required_length + MAX_LOG_LINE_PREFIX_SIZE + subject_name_len;", "new": "    int total_length = required_length + MAX_LOG_LINE_PREFIX_SIZE;"},
     {"name": "noalloc-buffer-static", "file": LG, "expect": "LINE", "old": "    char format_buffer[MAXIMUM_NO_ALLOC_LOG_LINE_SIZE];", "new": "    static char format_buffer[MAXIMUM_NO_ALLOC_LOG_LINE_SIZE];"},
     {"name": "separator-index-not-clamped", "file": "source/log_formatter.c", "expect": "LINE",
